@@ -72,12 +72,14 @@ func (c *RawSubstrateConfig) Validate() error {
 // raw chain config
 func NewSubstrateConfig(chainConfig map[string]interface{}) (*SubstrateConfig, error) {
 	var c RawSubstrateConfig
-	err := mapstructure.Decode(chainConfig, &c)
+	// defaults first: decoding then overwrites them with every value that was written,
+	// so an explicit zero reaches Validate instead of being replaced by the default
+	err := defaults.Set(&c)
 	if err != nil {
 		return nil, err
 	}
 
-	err = defaults.Set(&c)
+	err = mapstructure.Decode(chainConfig, &c)
 	if err != nil {
 		return nil, err
 	}
